@@ -4,7 +4,7 @@
 # usage: tools/regress.sh [outdir]   (uses a private copy of bin/pslint so that rebuilding meanwhile is harmless)
 out=${1:-/tmp/psregress}; mkdir -p $out
 cp /verif/bin/pslint $out/pslint; export PSLINT=$out/pslint
-for p in $(seq -w 1 20); do $PSLINT -prop C$p -tier thorough -no-evidence; done 2>&1 | grep -v ' 0 not discharged\| 0 missed' > $out/clean.txt
+for p in $(seq -w 1 20); do $PSLINT -prop C$p -tier thorough -no-evidence; done 2>&1 | grep -v ' 0 not discharged\| 0 missed, 0 skipped' > $out/clean.txt
 /verif/tools/try_all_seeded.sh own > $out/seeded.txt 2>&1
 /verif/tools/try_benign.sh > $out/benign.txt 2>&1
 echo "clean/controls: $(wc -l < $out/clean.txt) lines (want 0)"
